@@ -55,6 +55,17 @@ MulAgrees  == Heavy => \A k \in 0..KMax(c) : Mul(c, k, P) = row.mul[k + 1]      
 Assoc      == Heavy => \A j \in 1..N : \A R \in { G(c), T(c), Neg(c, P) } :
                  Add(c, row.add[j], R) = Add(c, P, Add(c, pts[j], R))
 
+\* the division-free relations of EcRel (used at full size for the built-in curves) describe the same law:
+\* the EcGroup point satisfies them and a different point of the group does not
+NatLess(u, v) == u < v
+Rel == INSTANCE EcRel WITH MulM <- MulMod, AddM <- AddMod, SubM <- SubMod, Less <- NatLess,
+                           Zero <- 0, Two <- 2, Three <- 3
+RelAgrees  == /\ \A j \in 1..N : /\ Rel!AddR(c, P, pts[j], row.add[j]) /\ Rel!SubR(c, P, pts[j], row.sub[j])
+                                 /\ ~Rel!AddR(c, P, pts[j], row.add[(j % N) + 1]) \/ row.add[(j % N) + 1] = row.add[j]
+                                 /\ ~Rel!SubR(c, P, pts[j], pts[j]) \/ row.sub[j] = pts[j]
+              /\ Rel!DblR(c, P, row.dbl) /\ Rel!NegR(c, P, Neg(c, P)) /\ Rel!OnCurveR(c, P)
+              /\ \A j \in 1..N : Rel!DblR(c, P, pts[j]) <=> pts[j] = row.dbl          \* exactly one solution
+
 Emit == PrintT(ToJson([gen |-> "pairs", curve |-> c, idx |-> i, P |-> P, Q |-> pts,
                        add |-> row.add, sub |-> row.sub, mul |-> row.mul, dbl |-> row.dbl, dbln |-> row.dbln]))
 =============================================================================
